@@ -239,6 +239,20 @@ impl Visitor<Diagnostic> for LibraryRenderer {
         let sign = if nanoseconds < 0 { "-" } else { "" };
         let whole = nanoseconds.unsigned_abs() / 1_000_000;
         let fraction = nanoseconds.unsigned_abs() % 1_000_000;
+        // A number of milliseconds beyond the 64 bits a duration part may have cannot be
+        // read back: such a duration is written in seconds.
+        if whole > u64::MAX as u128 {
+            let seconds = nanoseconds.unsigned_abs() / 1_000_000_000;
+            let fraction = nanoseconds.unsigned_abs() % 1_000_000_000;
+            let val = if fraction == 0 {
+                format!("TIME#{}{}s", sign, seconds)
+            } else {
+                let digits = format!("{:09}", fraction);
+                format!("TIME#{}{}.{}s", sign, seconds, digits.trim_end_matches('0'))
+            };
+            self.write_ws(val.as_str());
+            return Ok(());
+        }
         let val = if fraction == 0 {
             format!("TIME#{}{}ms", sign, whole)
         } else {
